@@ -1,5 +1,5 @@
 """C19 — inspection tools report what is actually in the file."""
-from engine.h4v import H
+from engine.h4v import H, REPO
 
 TYPES = [("INT8", 20, 1), ("UINT8", 21, 1), ("CHAR8", 4, 1), ("INT16", 22, 2), ("UINT16", 23, 2), ("INT32", 24, 4), ("UINT32", 25, 4), ("FLOAT32", 5, 4), ("FLOAT64", 6, 8)]
 
@@ -21,5 +21,5 @@ def plan(ctx, tier, seed):
     for tn, code, sz in TYPES:
         hs.append(H("C19.K1.arraydiff." + tn, "C19", src="harness/C19/k1_arraydiff.c", units=["mfhdf/hdiff/hdiff_array.c"], models=["herr", "memloops"],
                     defs={"TYPE": code, "SZ": sz, "N": 2}, unwind=20, kind="K", timeout=900, mf=True, field_sens=64,
-                    extra_cc=["-I/repo/mfhdf/hdiff"], symbolic="2x2 elements, all bit patterns", bound="2 elements per buffer", group="C19.K1"))
+                    extra_cc=["-I" + REPO + "/mfhdf/hdiff"], symbolic="2x2 elements, all bit patterns", bound="2 elements per buffer", group="C19.K1"))
     return hs
